@@ -282,6 +282,10 @@ def foreign_events(ctx, W):
     inner_msgs.append(('BZ2-compressed literal', build.pkt(8, b'\x03' + bz2.compress(lit)), b'foreign literal content \x00\xff'))
     big = build.pkt(11, b'b\x00' + b'\x00\x00\x00\x02' + bytes(range(256)) * 8, chunks=[9, 8])
     inner_msgs.append(('literal with partial body lengths', big, bytes(range(256)) * 8))
+    # the last packet inside the container with an old-format header of INDETERMINATE length (length type 3): it extends to the end of the
+    # plaintext proper, i.e. up to the MDC packet (which is not part of the message)
+    inner_msgs.append(('literal of indeterminate length', build.pkt(11, b'b\x00' + b'\x00\x00\x00\x03' + b'runs to the end', fmt='old', form=3), b'runs to the end'))
+    inner_msgs.append(('ZIP-compressed literal of indeterminate length', build.pkt(8, b'\x01' + z, fmt='old', form=3), b'foreign literal content \x00\xff'))
     ciphers = [9, 7, 2, 3, 4, 8, 11, 12, 13]
     rkinds = ['rsa', 'cv25519', 'ecdh256', 'ecdh384']
     n = 0
